@@ -1,10 +1,10 @@
 PROPS = {
     "C23": {
-        "m": ["c23"],
+        "m": ["c23", "c23s"],
         "level": "model_checking",
         "technique": "symbolic execution of the rustc MIR of the agents' guard functions into SMT (bit-vector discriminants), table-vs-MIR equivalence decided by z3 and cross-checked by cvc5",
-        "text": "For the 9 mini-protocols of the original stack and both roles (17 agents), the MIR of has_agency, assert_agency_is_ours/theirs, assert_outbound_state and assert_inbound_state is regenerated from /repo's working tree and executed symbolically on an arbitrary (state, message) pair; the solver shows that `accepts to send` and `accepts to receive` coincide with the transition relation of the Ouroboros specification tables (spec/n2_protocols.json) for every pair -- guard tables only, complete over the finite discriminant space.",
-        "note": "Not decided: the state *updates* performed inside the async send_*/recv_* methods (coroutine bodies behind tokio channels), so `ends in the prescribed state` is outside the claim; message payloads play no role in the guards. Trusted: the hand-transcribed specification tables, the MIR text of the nightly compiler as a faithful rendering of the code, the variant tables read from derived Debug impls, mirsym's interpreter (validated at setup against native runs).",
+        "text": "For the 9 mini-protocols of the original stack and both roles (17 agents), the MIR of has_agency, assert_agency_is_ours/theirs, assert_outbound_state and assert_inbound_state is regenerated from /repo's working tree and executed symbolically on an arbitrary (state, message) pair; the solver shows that `accepts to send` and `accepts to receive` coincide with the transition relation of the Ouroboros specification tables (spec/n2_protocols.json) for every pair (guard tables, complete over the finite discriminant space). Second query set (state updates): the coroutine bodies (poll functions, MIR) of every async exchange method whose only awaits are send_message/recv_message are executed from an arbitrary agent state with those primitives replaced by their verified guard contract; on every finished path an Err leaves the agent state unchanged and an Ok has moved it along exactly the specification transitions of the messages exchanged on that path; send_message/recv_message themselves never change the state.",
+        "note": "Outside: composite async methods that await other high-level methods (keepalive_roundtrip, handshake, chainsync request_or_await_next, localstate acquire/query, txmonitor query_*, blockfetch fetch_*; listed in the evidence file), payload-dependent parts of a next state (which cookie Server carries), loops beyond 3 unrollings. Assumed: the multiplexer channel functions do not touch the agent's protocol state (they receive &mut self.1 only). Trusted: the hand-transcribed specification tables, the MIR text of the nightly compiler as a faithful rendering of the code, the variant tables read from derived Debug impls, mirsym's interpreter (validated at setup against native runs).",
     },
     "C39": {
         "m": ["c39"],
